@@ -240,7 +240,7 @@ class Check:
         return not anchors.errors
 
     # ---------------------------------------------------------------- build
-    def build(self, prop_dirs, property_files):
+    def build(self, prop_dirs, property_files, extra=()):
         """make the .vo for the given property files (under lock), then recompile the
         Property.v files to capture Print Assumptions.  Records broken obligations."""
         files = []
@@ -252,7 +252,7 @@ class Check:
         bad = audit_files(files + sorted(glob.glob(os.path.join(COQ, "theories", "Common", "*.v"))))
         for b in bad:
             self.broken.append({"kind": "audit", "name": b, "detail": "forbidden construct " + b})
-        targets = [os.path.relpath(os.path.join(COQ, "theories", f), COQ)[:-2] + ".vo" for f in property_files]
+        targets = [os.path.relpath(os.path.join(COQ, "theories", f), COQ)[:-2] + ".vo" for f in list(property_files) + list(extra)]
         self.checker_cmd = (f"make -C {COQ} -k {' '.join(targets)}  (coq_makefile project, full .vo build, coqc 8.16.1); "
                             f"then coqc on each Property.v to capture Print Assumptions")
         with CoqLock():
